@@ -78,3 +78,66 @@ contract(f"{V}::FP2Value.wp_nominator", "wp_nominator", vars={"m": INT, "x": FP}
          call="x.wp_nominator()", raises=[],
          ensures=["valid(result, m)", "result.a == x.a", "result.b == x.b", "result.c == 0",
                   "result.aC == 1", "result.bC == 0", "result.cC == 0"])
+
+
+# ---------------------------------------------------------------------------------------------------------------------
+# BOUNDED native stand-in (sampling on the real code, not a proof): the protocol-level part of the property and the integer /
+# key / attestation codecs, which are outside the verifier's reach (hex-string formatting of big integers, key generation with
+# probabilistic primality tests, modular exponentiation loops over symbolic exponents).
+native("honest-proof-and-codecs", "natives/c18_protocol.py",
+       bound="quick: 10 fresh 32-bit-prime keys x random values (0..64 bytes), format id_metadata, all challenges answered honestly, "
+             "4 foreign values each; 230 integers for the codecs.  thorough: 3 formats x 6 keys",
+       functions=["ipv8/attestation/wallet/primitives/structs.py::ipack", "ipv8/attestation/wallet/primitives/structs.py::iunpack",
+                  "ipv8/attestation/wallet/primitives/boneh.py::encode", "ipv8/attestation/wallet/primitives/boneh.py::decode",
+                  "ipv8/attestation/wallet/bonehexact/algorithm.py::BonehExactAlgorithm.certainty"],
+       args=[10], note="true value scores >= 0.99 after all challenges, a value with another bit-pair profile scores 0, keys and "
+                       "attestations survive serialisation, decode(encode(m)) == m")
+
+
+# ---------------------------------------------------------------------------------------------------------------------
+# square-and-multiply: for every concrete small exponent (loop unrolled by execution) intpow equals the repeated product, for ALL
+# operands and moduli.  Exponents that are large relative to the modulus are sampled natively (natives/c18_protocol.py).
+def ppow(v, n):
+    """numerator/denominator polynomials of v ** n by repeated multiplication: ((n0, n1), (d0, d1)) reduced mod X^2+X+1"""
+    nn, dd = (1, 0, 0), (1, 0, 0)
+    for _ in range(n):
+        a = pmul(nn, num(v))
+        b = pmul(dd, den(v))
+        nn, dd = (a[0], a[1], 0), (b[0], b[1], 0)
+    return nn, dd
+
+
+for _n in (0, 1, 2, 3):
+    contract(f"{V}::FP2Value.intpow", f"intpow[{_n}]==repeated-product", vars={"m": INT, "x": FP},
+             requires=["m >= 2", "valid(x, m)", "x.c == 0 and x.cC == 0"], call=f"x.intpow({_n})", raises=[],
+             ensures=[f"result.mod == m and result.c == 0 and result.cC == 0",
+                      f"frac_eq(result, ppow(x, {_n}), m)"],
+             bounded=f"exponent {_n} (square-and-multiply loop executed for this exponent); operands and modulus symbolic",
+             note="same fraction as multiplying x by itself n times")
+
+
+def frac_eq(r, nd, m):
+    """r's numerator/denominator pair equals the given polynomials coefficient-wise modulo m (the representation intpow produces by
+    multiplying, i.e. without normalisation)"""
+    return (r.a - nd[0][0]) % m == 0 and (r.b - nd[0][1]) % m == 0 and (r.aC - nd[1][0]) % m == 0 and (r.bC - nd[1][1]) % m == 0
+
+
+# range proof acceptance: whatever the commitments say, a response with a non-positive x or y is never accepted
+PB = "ipv8/attestation/wallet/pengbaorange/structs.py"
+FPV = OBJ(f"{V}::FP2Value", mod=INT, a=INT, b=INT, c=INT, aC=INT, bC=INT, cC=INT)
+CHK = EFFECT("boudot", check={"returns": BOOL})
+contract(f"{PB}::PengBaoPublicData.check", "range-check.requires-positive-responses",
+         vars={"g": FPV, "h": FPV, "self": OBJ(f"{PB}::PengBaoPublicData", PK=OBJ("ipv8/attestation/wallet/primitives/structs.py::BonehPublicKey", p=INT, g=EXPR("g"), h=EXPR("h")),
+                                              bitspace=INT, el=CHK, sqr1=CHK, sqr2=CHK,
+                                              commitment=OBJ(f"{PB}::PengBaoCommitment", c=FPV, c1=FPV, c2=FPV, ca=FPV, ca1=FPV, ca2=FPV,
+                                                             ca3=FPV, caa=FPV)),
+               "a": INT, "b": INT, "s": INT, "t": INT, "x": INT, "y": INT, "u": INT, "v": INT},
+         call="self.check(a, b, s, t, x, y, u, v)", raises=[],
+         stubs={f"{V}::FP2Value.intpow": {"returns": FPV, "note": "exponentiation: own contracts above + native sampling"},
+                f"{V}::FP2Value.__mul__": {"returns": FPV, "note": "own contract mul==spec"},
+                f"{V}::FP2Value.__floordiv__": {"returns": FPV, "note": "own contract div==spec"},
+                f"{V}::FP2Value.__eq__": {"returns": "bool", "note": "equality of normalised fractions"}},
+         ensures=["implies(result, x > 0 and y > 0)", "implies(result, len(calls('boudot.check')) == 3)"],
+         covers=["result == True", "result == False"],
+         note="both responses must be strictly positive (a value outside [a, b] yields a non-positive one) and all three Boudot "
+              "proofs are consulted")
